@@ -217,6 +217,17 @@ impl VpAsStr for &str {
     open spec fn vp_chars(&self) -> Seq<char> { (*self)@ }
     fn vp_as_str(&self) -> (r: &str) { *self }
 }
+/// `{:x}` (w = 0) / `{:02x}` (w = 2) of a byte: lower-case hex, two digits when padded or when the value needs them
+pub open spec fn hex_u8(v: u8, w: nat) -> Seq<char> {
+    if w >= 2 || v >= 16 { seq![crate::standin::hex::hex_digit((v / 16) as int), crate::standin::hex::hex_digit((v % 16) as int)] }
+    else { seq![crate::standin::hex::hex_digit(v as int)] }
+}
+/// N6 shim for a `{:x}` / `{:02x}` hole with a `u8` argument
+#[verifier::external_body]
+pub fn vp_hex_u8(v: u8, w: usize) -> (r: String)
+    requires w <= 2,
+    ensures r@ == hex_u8(v, w as nat), is_ascii_chars(r@),
+{ if w >= 2 { format!("{v:02x}") } else { format!("{v:x}") } }
 pub open spec fn concat_strs(parts: Seq<&str>) -> Seq<char>
     decreases parts.len()
 {
